@@ -277,8 +277,16 @@ def materialise(root, v, mode, sp, links):
             decoy = "marker decoy-%s\n" % name
         else:
             if i == 1:
+                ext = ref
+                if ref is not None and v["frag"] == 2 and len(sp["r1"]) % 2:
+                    # the reference that carries the fragment is one of two: a fragment is refused wherever it stands
+                    extra = "zcvextra%d.xml" % (len(sp["r2"]) % 2)
+                    for d in TREE_DIRS + [("O",)]:
+                        with open(os.path.join(real(d), extra), "w") as f:
+                            f.write("<schema/>")
+                    ext = (extra + " " + ref) if len(sp["r2"]) % 2 else (ref + " " + extra)
                 body = "<schema%s><key name='k1' default='r1'/></schema>" % (
-                    (" extends=%s" % _q(ref)) if ref is not None else "")
+                    (" extends=%s" % _q(ext)) if ext is not None else "")
             elif i == 2:
                 body = "<schema>%s<key name='k2' default='r2'/></schema>" % (
                     ("<import src=%s/>" % _q(ref)) if ref is not None else "")
